@@ -9,6 +9,8 @@ def run(c):
     # a direct connection never becomes an elevated caller's connection because a record appears under its port number later
     from checks import c07
     c07.late_record(c, "C03")
+    # ... nor because an elevated caller's reset connection from the same source port is still in the accept queue
+    c07.burst_reuse_check(c, "C03", 100 if c.tier != "thorough" else 400)
     # "not running elevated" is what the kernel program records: is-root must be (uid == 0) for every caller, uid != gid
     # included (linux-ebpf/ebpf_cgroup.c in the user-space shim, judged by spec/trace/EbpfTrace.tla; shared with C06)
     from checks import c06
